@@ -179,10 +179,35 @@ impl World {
             chunks.push(json!([ev.created as u8, ev.id, ev.len, orphans]));
         }
         e.insert("chunks".into(), json!(chunks));
+        // stable_consumer() needs &mut: taken first, per object: [ok, StableIovec::flatten() agrees with flatten(), iovs count]
+        let mut stable: BTreeMap<i64, [i64; 3]> = BTreeMap::new();
+        let rs = guarded(|| {
+            let mut m = BTreeMap::new();
+            for (id, o) in self.objs.iter_mut() {
+                let plain = o.flatten().ok();
+                let st = match o.stable_consumer() {
+                    Ok(s) => {
+                        let same = plain.as_ref().map(|p| *p == s.flatten() && s.flatten_into(vec![1]) [1..] == p[..]).unwrap_or(false);
+                        [1, same as i64, s.iovs().len() as i64]
+                    }
+                    Err(_) => [0, 1, 0],
+                };
+                m.insert(*id, st);
+            }
+            m
+        });
+        if let Ok(m) = rs {
+            stable = m;
+        }
         let r = guarded(|| {
             let mut obs = Vec::new();
             for (id, o) in &self.objs {
-                obs.push(self.observe_obj(*id, o));
+                let mut v = self.observe_obj(*id, o);
+                let st = stable.get(id).copied().unwrap_or([-1, 0, 0]);
+                v["stable_ok"] = json!(st[0]);
+                v["stable_same"] = json!(st[1]);
+                v["stable_n"] = json!(st[2]);
+                obs.push(v);
             }
             let held: Vec<Value> = self
                 .held
